@@ -27,6 +27,10 @@ def script_from_trace(trace):
         if s[1] is None:
             s[1] = 'ok'
             s[2] = 0
+    if any(e[0] == 'FX' and e[1] == 'pre_start_links_observer' for e in trace):
+        for s in order:
+            if s[0] == 'pre_start':
+                s[3].append('linkobs')
     # the stimulus for step k+1 is sent from within step k (after post_start); exits are triggered by the last handler / post_start
     names = [s[0] for s in order]
     started = 'post_start' in names and any(e[0] == 'START_OK' for e in trace)
@@ -106,7 +110,8 @@ def trace_from_log(log, meta):
 
 
 def run_native(script, sup=True, sup_dead=False, named=False, abort_after=None):
-    out, lines, rc, err = native.run('life', script=script, sup=1 if sup else 0, sup_dead=1 if sup_dead else 0, named=1 if named else 0, abort_after_entries=abort_after, timeout=30)
+    out, lines, rc, err = native.run('life', script=script, sup=1 if sup else 0, sup_dead=1 if sup_dead else 0, named=1 if named else 0, abort_after_entries=abort_after,
+                                     obs=1 if 'linkobs' in script else 0, timeout=30)
     if rc != 0:
         raise RuntimeError('native life replay failed: ' + err[-300:])
     return [x for x in out.get('log', '').split(',') if x]
@@ -133,6 +138,8 @@ def evaluate(prop, log, meta, sup):
                 bad.append('registries_and_groups_released')
             if any(x.startswith('sup_children:') and x != 'sup_children:0' for x in log):
                 bad.append('not_linked_to_supervisor')
+            if any(x.startswith('obs_children:') and x != 'obs_children:0' for x in log):
+                bad.append('not_linked_to_observer')
     return bad, tr
 
 
